@@ -21,6 +21,18 @@ pub struct BroadCfg {
     pub version: bool,
     pub custom_help: bool,
     pub strictness: bool,
+    /// chains of adjacent commands (`cmd1 --a cmd2 --b`) as a tail
+    pub adjacent_cmds: bool,
+    /// non-command alternatives next to commands in the same choice
+    pub mixed_alt: bool,
+    /// nested groups under optional / fallback / fallback_with
+    pub wrapped_groups: bool,
+    /// alternatives that share a name and help text but differ in kind or metavariable
+    pub dup_names: bool,
+    /// decorated groups whose first member is hidden; groups that contain commands
+    pub odd_groups: bool,
+    /// catch on optional/many/some
+    pub catch: bool,
 }
 
 #[derive(Clone, Copy, Debug, PartialEq, Eq)]
@@ -50,6 +62,12 @@ impl Default for BroadCfg {
             version: false,
             custom_help: false,
             strictness: false,
+            adjacent_cmds: false,
+            mixed_alt: false,
+            wrapped_groups: false,
+            dup_names: false,
+            odd_groups: false,
+            catch: false,
         }
     }
 }
@@ -242,6 +260,39 @@ fn decorate(n: Node, u: &mut Un, names: &mut Names, cfg: &BroadCfg) -> Node {
 }
 
 fn gen_alt(u: &mut Un, names: &mut Names, cfg: &BroadCfg) -> Node {
+    if cfg.dup_names && u.chance(70) {
+        // `--color` | `--color=WHEN`, or `--input=FILE` | `--input=URL`: same name, same help
+        let a = gen_named_leaf(u, names, NamedKind::ReqFlag);
+        let a = match add_help(Node::Named(a), u, names, cfg) {
+            Node::Named(x) => x,
+            _ => unreachable!(),
+        };
+        let mut b = a.clone();
+        b.id = names.id();
+        let mut c = a.clone();
+        c.id = names.id();
+        let (first, second) = if u.bool() {
+            b.kind = NamedKind::Arg {
+                ty: Ty::Str,
+                metavar: "WHEN".into(),
+                adjacent: false,
+            };
+            (a, b)
+        } else {
+            b.kind = NamedKind::Arg {
+                ty: Ty::Str,
+                metavar: "FILE".into(),
+                adjacent: false,
+            };
+            c.kind = NamedKind::Arg {
+                ty: Ty::Str,
+                metavar: "URL".into(),
+                adjacent: false,
+            };
+            (b, c)
+        };
+        return Node::Alt(vec![Node::Named(first), Node::Named(second)]);
+    }
     let n = 2 + u.below(2);
     let mut branches = Vec::new();
     for _ in 0..n {
@@ -346,8 +397,34 @@ pub fn gen_broad_field(u: &mut Un, names: &mut Names, cfg: &BroadCfg) -> Node {
                     add_help(f, u, names, cfg)
                 })
                 .collect();
+            let mut xs = xs;
+            if cfg.odd_groups && u.chance(90) {
+                let first = xs.remove(0);
+                xs.insert(0, Node::Hide(first.b()));
+            }
             let g = Node::Seq(xs);
-            if cfg.decor && u.bool() {
+            if cfg.wrapped_groups && u.chance(120) {
+                // all members required so that a partial group is an error
+                let k = 2 + u.below(2);
+                let members: Vec<Node> = (0..k).map(|_| gen_req_named(u, names, cfg, false)).collect();
+                let g = Node::Seq(members);
+                match u.below(3) {
+                    0 => Node::Optional {
+                        n: g.b(),
+                        catch: false,
+                    },
+                    1 => Node::Fallback {
+                        n: g.b(),
+                        value: "grp-dflt".into(),
+                        shown: cfg.odd_groups && u.bool(),
+                    },
+                    _ => Node::FallbackWith {
+                        n: g.b(),
+                        ok: true,
+                        value: "grp-dflt-with".into(),
+                    },
+                }
+            } else if cfg.decor && u.bool() {
                 Node::GroupHelp(g.b(), DocSpec::plain(marker(names, "Grp")))
             } else {
                 g
@@ -400,7 +477,7 @@ fn gen_info(u: &mut Un, names: &mut Names, cfg: &BroadCfg, depth: usize) -> Info
 
 pub fn gen_broad_level(u: &mut Un, names: &mut Names, cfg: &BroadCfg, depth: usize) -> Level {
     let tail = if depth < cfg.max_depth {
-        u.weighted(&[2, 3, 3])
+        u.weighted(&[2, 3, 3, if cfg.adjacent_cmds { 2 } else { 0 }])
     } else {
         u.weighted(&[2, 3, 0])
     };
@@ -410,6 +487,53 @@ pub fn gen_broad_level(u: &mut Un, names: &mut Names, cfg: &BroadCfg, depth: usi
         .collect();
     let mut tail_nodes = Vec::new();
     match tail {
+        3 => {
+            // chain of adjacent commands: many([cmd1, cmd2, ..])
+            let ncmd = 2 + u.below(2);
+            let mut cmds = Vec::new();
+            for _ in 0..ncmd {
+                let name = names.cmd(u);
+                let mut inner: Vec<Node> = Vec::new();
+                let k = u.below(3);
+                for _ in 0..k {
+                    inner.push(match u.below(3) {
+                        0 => Node::Named(gen_named_leaf(u, names, NamedKind::Switch)),
+                        1 => Node::Optional {
+                            n: gen_req_named(u, names, cfg, false).b(),
+                            catch: false,
+                        },
+                        _ => gen_req_named(u, names, cfg, false),
+                    });
+                }
+                if u.chance(80) {
+                    let cc = conv_cfg(cfg);
+                    inner.push(Node::Pos(gen_pos(u, names, &cc, Strictness::Unrestricted)));
+                }
+                if inner.is_empty() {
+                    inner.push(Node::Pure("unit".into()));
+                }
+                let help = if cfg.help != HelpGen::None && u.chance(100) {
+                    Some(DocSpec::plain(marker(names, "CmdHelp")))
+                } else {
+                    None
+                };
+                cmds.push(Node::Cmd(Box::new(CmdSpec {
+                    name,
+                    shorts: Vec::new(),
+                    longs: Vec::new(),
+                    help,
+                    adjacent: true,
+                    level: Level {
+                        body: Node::Seq(inner),
+                        info: gen_info(u, names, cfg, depth + 1),
+                    },
+                })));
+            }
+            tail_nodes.push(Node::Many {
+                n: Node::Alt(cmds).b(),
+                catch: false,
+            });
+        }
         1 => {
             let cc = conv_cfg(cfg);
             for p in gen_pos_suffix(u, names, &cc) {
@@ -456,14 +580,45 @@ pub fn gen_broad_level(u: &mut Un, names: &mut Names, cfg: &BroadCfg, depth: usi
                     c
                 });
             }
+            let mut mixed = false;
+            if cfg.mixed_alt && u.chance(90) {
+                // alternatives that are not commands, listed after them: some can succeed on
+                // an empty line
+                mixed = true;
+                let k = 1 + u.below(2);
+                for _ in 0..k {
+                    cmds.push(match u.below(3) {
+                        0 => Node::Named(gen_named_leaf(u, names, NamedKind::Switch)),
+                        1 => Node::Seq(vec![
+                            Node::Named(gen_named_leaf(u, names, NamedKind::Switch)),
+                            Node::Optional {
+                                n: gen_req_named(u, names, cfg, false).b(),
+                                catch: false,
+                            },
+                        ]),
+                        _ => gen_req_named(u, names, cfg, false),
+                    });
+                }
+            }
             let alt = Node::Alt(cmds);
-            tail_nodes.push(if u.chance(90) {
+            let wrapped = if !mixed && u.chance(90) {
                 Node::Optional {
                     n: alt.b(),
                     catch: false,
                 }
             } else {
                 alt
+            };
+            tail_nodes.push(if cfg.odd_groups && u.chance(70) {
+                // a decorated group that starts with a flag and contains the commands
+                let lead = Node::Named(gen_named_leaf(u, names, NamedKind::Switch));
+                let lead = add_help(lead, u, names, cfg);
+                Node::GroupHelp(
+                    Node::Seq(vec![lead, wrapped]).b(),
+                    DocSpec::plain(marker(names, "Grp")),
+                )
+            } else {
+                wrapped
             });
         }
         _ => {}
@@ -486,6 +641,8 @@ pub fn gen_broad_level(u: &mut Un, names: &mut Names, cfg: &BroadCfg, depth: usi
 
 #[derive(Clone, Debug, PartialEq, Eq, Hash)]
 pub enum Piece {
+    /// name of an adjacent command at the start of its block
+    CmdName(String),
     Occ(Occ),
     /// positional word that belongs to an adjacent block
     Word(Vec<u8>),
@@ -542,7 +699,14 @@ pub struct SentGen<'a> {
 impl SentGen<'_> {
     fn value(&mut self, u: &mut Un, ty: Ty) -> Vec<u8> {
         match self.mode {
-            _ if self.in_group => gen_value(u, self.names, ty),
+            _ if self.in_group => {
+                // members of a block cannot be moved behind `--`: no leading dash
+                let v = gen_value(u, self.names, ty);
+                match v.strip_prefix(b"-") {
+                    Some(rest) => rest.to_vec(),
+                    None => v,
+                }
+            }
             ValMode::Tokens => gen_value(u, self.names, ty),
             ValMode::Hard => {
                 if u.chance(170) {
@@ -602,6 +766,20 @@ impl SentGen<'_> {
                 let raw = self.value(u, p.ty);
                 out.delivered.push(raw.clone());
                 words.push(raw);
+            }
+            Node::Cmd(c) if c.adjacent => {
+                // one contiguous block: name, own items, own words
+                let all = c.all_names();
+                let used = u.pick(&all).clone();
+                let was = self.in_group;
+                self.in_group = true;
+                let sub = self.level(u, &c.level);
+                self.in_group = was;
+                let mut members = vec![Piece::CmdName(used)];
+                members.extend(sub.floating.into_iter().map(|(_, p)| p));
+                members.extend(sub.words.into_iter().map(Piece::Word));
+                out.delivered.extend(sub.delivered);
+                sink.push(Piece::Group(members));
             }
             Node::Cmd(c) => {
                 let all = c.all_names();
@@ -774,6 +952,16 @@ pub struct PreparedLevel {
 pub fn prepare(sent: &BSent) -> Prepared {
     fn flat(p: &Piece, level: usize, field: usize, group: Option<usize>, uid: &mut usize, gid: &mut usize, out: &mut Vec<LItem>) {
         match p {
+            Piece::CmdName(n) => {
+                out.push(LItem {
+                    kind: LKind::Cmd(n.clone()),
+                    level,
+                    field,
+                    group,
+                    uid: *uid,
+                });
+                *uid += 1;
+            }
             Piece::Occ(o) => {
                 out.push(LItem {
                     kind: LKind::Occ(o.clone()),
